@@ -1,6 +1,7 @@
 /-
 C16 — Base64 codec is RFC 4648 and the key validator accepts exactly 16-byte keys.
 -/
+import Wencry.Generated.Consts
 import Wencry.Proofs.Base64Correct
 namespace Wencry.Props.C16
 open Wencry Wencry.Model.Base64
@@ -29,5 +30,10 @@ theorem table_hex_inverts_b64 : ∀ i : BitVec 6, Gen.hexT ((Gen.b64T i).truncat
 
 /-- non-vacuity: an accepted key exists (the encoding of sixteen zero bytes) -/
 example : isValidB64 (Spec.Base64.encode (List.replicate 16 0)) = true := (printed_key_roundtrip _ (by simp)).1
+
+/-- generated-data obligation: the alphabet test `is_base64` (with `std::isalnum` in the C locale), tabulated through the compiled
+    function for every byte on every run, is the model's — this also removes `isalnum` from what has to be trusted -/
+theorem alphabet_test_is_the_compiled_one : ∀ c : BitVec 8, Gen.isBase64Table.getD c.toNat false = Model.Base64.isBase64 c := by
+  decide +kernel
 
 end Wencry.Props.C16
